@@ -27,8 +27,11 @@ func (c *wsNetConn) Write(b []byte) (n int, err error) {
 	return c.w.Write(b)
 }
 
+// Close is called by websocket.Upgrader.Upgrade when the handshake is aborted
+// (for instance when the client sends data before the handshake is complete).
+// The underlying connection is closed by ServerConn.
 func (c *wsNetConn) Close() error {
-	panic("unimplemented")
+	return nil
 }
 
 func (c *wsNetConn) LocalAddr() net.Addr {
